@@ -18,6 +18,7 @@
 #include <string>
 #include <sys/wait.h>
 #include <system_error>
+#include <type_traits>
 #include <unistd.h>
 #include <variant>
 #include <vector>
@@ -199,13 +200,36 @@ template<class St> typename St::container_type const &container_of(St const &st)
   return H::get(st);
 }
 
+// The pool's occupancy is read from its internals. Which members exist is detected, so that a change of the pool's
+// representation is judged by its behaviour and not by a harness that no longer compiles:
+// m_busy (container of outstanding buffers) | m_busyCount (counter) | neither (occupancy not reported: -1).
+template<class P, class = void> struct has_busy_list : std::false_type {};
+template<class P> struct has_busy_list<P, std::void_t<decltype(std::declval<P &>().m_busy.size())>> : std::true_type {};
+template<class P, class = void> struct has_busy_count : std::false_type {};
+template<class P> struct has_busy_count<P, std::void_t<decltype(std::declval<P &>().m_busyCount)>> : std::true_type {};
+template<class P, class = void> struct has_idle_stack : std::false_type {};
+template<class P> struct has_idle_stack<P, std::void_t<decltype(std::declval<P &>().m_idle)>> : std::true_type {};
+
+template<class P> long long pool_busy(P *pool)
+{
+  if constexpr(has_busy_list<P>::value) return static_cast<long long>(pool->m_busy.size());
+  else if constexpr(has_busy_count<P>::value) return static_cast<long long>(pool->m_busyCount);
+  else return -1;
+}
+
 // buffer names are assigned by address: forget the addresses of a pool that is about to be destroyed
+template<class P> void forget_pool_names_impl(P *pool)
+{
+  auto forget = [](void const *p) { for(auto &n : names) if(n == p) n = nullptr; };
+  if constexpr(has_busy_list<P>::value) { for(auto const &b : pool->m_busy) forget(b.get()); }
+  if constexpr(has_idle_stack<P>::value) { for(auto const &b : container_of(pool->m_idle)) forget(b.get()); }
+  // buffers that are out (held by the scenario) when the representation keeps no list of them
+  if constexpr(!has_busy_list<P>::value) { for(auto &h : held) if(h) forget(h.get()); }
+}
 void forget_pool_names(BufferPool *pool)
 {
   if(!pool) return;
-  auto forget = [](void const *p) { for(auto &n : names) if(n == p) n = nullptr; };
-  for(auto const &b : pool->m_busy) forget(b.get());
-  for(auto const &b : container_of(pool->m_idle)) forget(b.get());
+  forget_pool_names_impl(pool);
 }
 
 void destroy_objects(Sock &s)
@@ -707,10 +731,10 @@ void report_state()
     }
   }
   S.active = true;
-  for(auto p : pool_order) vos::log(23, {p, static_cast<long long>(pools[p]->m_busy.size())});
+  for(auto p : pool_order) vos::log(23, {p, pool_busy(pools[p].get())});
   for(auto k : sock_order) {
     auto &s = socks[k];
-    if(auto *pool = s.rxpool()) vos::log(23, {1000 + k, static_cast<long long>(pool->m_busy.size())});
+    if(auto *pool = s.rxpool()) vos::log(23, {1000 + k, pool_busy(pool)});
   }
   if(driver) {
     V a;
